@@ -12,7 +12,7 @@ const tickNanos = int64(1) << 30 // span of the timer wheel's finest level
 
 // Mismatch is one disagreement between the cache and the reference model.
 type Mismatch struct {
-	Class     string // ret | expired | event | unreported | overflow | early | bound | load | refresh | deadline | tooearly | sweep | stats | calc | calcexp | views
+	Class     string // ret | expired | event | unreported | overflow | early | bound | load | refresh | deadline | tooearly | sweep | stats | calc | calcexp | views | wheel
 	Detail    string
 	OnExpired bool // the operation was applied to a key whose entry had expired but was not swept yet
 }
